@@ -752,6 +752,8 @@ func runCase1(n int, di int, ds *dataset, u *upstream, sv *server, e exprCase, m
 				co.Known = addRule(co.Known, fStaleEnd)
 			case hasMatrixSelector(e.Expr) && staleInSpan(ds, e.Expr, start, end):
 				co.Known = addRule(co.Known, fStaleEnd)
+			case !hasMatrixSelector(e.Expr) && fromSv.Err == "" && trailingLoss(fromSv, svr):
+				co.Known = addRule(co.Known, fSelTrailing)
 			default:
 				co.Unexplained = true
 			}
@@ -903,7 +905,9 @@ func main() {
 func runAll(sv *server, nds, ncases int, corpus []string) int {
 	r := gen.FromEnv(18)
 	n := 0
-	// the corpus of minimised witnesses runs first, each in its own database
+	// the corpus of minimised witnesses runs first, each in its own database; it has its own PRNG so that adding a
+	// witness never changes the generated stream
+	rc := gen.New(1818)
 	for ci, path := range corpus {
 		raw, err := os.ReadFile(path)
 		if err != nil {
@@ -922,7 +926,7 @@ func runAll(sv *server, nds, ncases int, corpus []string) int {
 			fmt.Fprintln(os.Stderr, "FATAL upstream:", err)
 			return 3
 		}
-		if err := ingest(sv, &ds, r); err != nil {
+		if err := ingest(sv, &ds, rc); err != nil {
 			fmt.Fprintln(os.Stderr, "FATAL ingest:", err)
 			return 3
 		}
@@ -930,7 +934,7 @@ func runAll(sv *server, nds, ncases int, corpus []string) int {
 			fmt.Fprintln(os.Stderr, "FATAL visible:", err)
 			return 3
 		}
-		co := runCase(n, -1-ci, &ds, u, sv, rf.Spec, rf.Mode, rf.T, rf.Start, rf.End, rf.Step, false, r)
+		co := runCase(n, -1-ci, &ds, u, sv, rf.Spec, rf.Mode, rf.T, rf.Start, rf.End, rf.Step, false, rc)
 		co.Corpus = path
 		gen.Emit(co)
 		n++
